@@ -203,9 +203,25 @@ def finish(check, body_error=None):
 def run_property(pid, body, tier="quick", seed=0, root=None):
     check = Check(pid, tier, seed, root)
     err = None
+    os.environ["FDCHECK_TIER"] = tier
     try:
         check.proj = Project(check.root)
         body(check)
+        if tier == "thorough" and not os.environ.get("FDCHECK_NO_SELFTEST"):
+            # both-ways self-test of this property's rules (reported in the evidence; it never
+            # changes the verdict on the analysed tree)
+            try:
+                from . import selftest
+                check.selftest = selftest.summary_for(pid)
+                st = check.selftest
+                print("%s selftest: neutral %s, breaking %s%s" % (pid, st["neutral"], st["breaking"],
+                      (" ; cannot decide on neutral: %s" % st["neutral_cannot_decide"]) if st["neutral_cannot_decide"] else ""))
+                for v in st["neutral_alarms"]:
+                    print("SELFTEST-PROBLEM %s raises an alarm on neutral variant %s" % (pid, v))
+                for v in st["breaking_missed"]:
+                    print("SELFTEST-PROBLEM %s misses breaking variant %s" % (pid, v))
+            except Exception as e:
+                check.notes.append("self-test could not run: %s" % e)
     except AnalysisError as e:
         err = "%s" % e
     except RecursionError:
